@@ -13,7 +13,8 @@
               pv = (0 pyval) | (1 (pv ...)) list | (2 ((key pv) ...)) dict in order
      row      (((key val) ...) vals)  for every name of schema.properties in order: nav.name(name).value();
               vals = (0 (pv ...)) | (1 exn) = Row.values()
-     neg      ((path obs) ...)   nav(path).index(-1): obs = (0 start end) | (1 exn)   (own stream only) *)
+     neg      ((path obs) ...)   nav(path).index(-1): obs = (0 start end) | (1 exn)   (own stream only)
+     cut      number of bytes the record is short of its extent (stream truncated; absent or 0 otherwise) *)
 From Coq Require Import ZArith NArith List Bool.
 Import ListNotations.
 Require Import SR.Base.Sx SR.Base.Res SR.Base.Dec SR.Spec.Layout SR.Model.Layout SR.Model.Estruct
@@ -139,7 +140,8 @@ Definition judge (c : sx) : sx :=
       | inl (v, st) => (dcount (slice r st (st + view_size e v)) =? e (as_N (nth_sx 0 cp)))%nat
       | inr _ => false
       end) counters in
-  if negb (counters_ok && (length r =? extent e t)%nat && negb (build_raises t)) then L [A 9; A 0; L [A 0]] else
+  let cut := as_nat (nth_sx 10 c) in      (* bytes missing at the end of a truncated record (0: the record is complete) *)
+  if negb (counters_ok && (length r + cut =? extent e t)%nat && negb (build_raises t)) then L [A 9; A 0; L [A 0]] else
   let dec := dec_of atoms in
   let js := build t in
   let mnav := vnav_of dcount r js in
